@@ -118,4 +118,23 @@ PROPS["C06"] = {
     "assumptions": [],
 }
 
+PROPS["C04"] = {
+    "modules": ["Foundation.Proofs.C04"],
+    "level_text": "Machine-checked general simulation: every program over the two cache layers (arbitrary control flow depending on every value read: batchExecute, executeTasks and any scripted or library body are instances) computes on the layered cache exactly what it computes on a plain map with an own-writes overlay; hence batch and task execution equal serial execution, reply entry by reply entry (error class or write list, reads, events, accounting) and in the committed ledger; a failing or panicking body leaves the committed map untouched, a succeeding one has its final view committed and reports exactly its writes; unknown ids are local. Tied to the code by batches and task lists of scripted bodies (writes before failure, panics, balance moves between senders) run through batchExecute and executeTasks; the judge executes the serial semantics.",
+    "level_note": "Trusted: Lean kernel + 3 axioms; Go's recover semantics; nonce bookkeeping on the batch level is covered under C02; accounting records are compared as multisets; bodies are the harness token's script language (incl. the library's TokenBalanceTransfer) - other library methods are covered through C06/C13/C19 which run inside batches.",
+    "trusted_base": ["core/cc_batch.go, task_executor.go modelled by Batch.txProg/batchProg/taskProg over the C12 cache model"],
+    "hypotheses": [],
+    "not_modelled": ["swap/multi-swap sections of a batch (C08/C09)", "InvokeChaincode result cache", "tracing pairs"],
+    "assumptions": [],
+}
+PROPS["C05"] = {
+    "modules": ["Foundation.Proofs.C05"],
+    "level_text": "Machine-checked on the batch model: a submission changes exactly one key (the pending record) or nothing; after the turn of a listed id - unknown method, undecodable record, failing, panicking or succeeding body - the id is consumed, stays consumed through the rest of the batch and every later batch, and every further listing (duplicates, re-listing) runs no body and answers not-found for that id only; an unknown id leaves the rest of the batch exactly as without it. Tied to the code by histories interleaving submissions with batches over multisets of fresh, executed, duplicated and unknown ids, observing submission diffs, per-id replies and pending-record presence.",
+    "level_note": "Trusted: as C04; Fabric never reuses a transaction id for a new submission; no method body writes a batchTransactions key (hypothesis Clean).",
+    "trusted_base": ["BatchHandler/saveToBatch modelled as one ledger write", "C04 batch model"],
+    "hypotheses": ["transaction ids of submissions are unique (Fabric)", "no method body writes a pending-record key"],
+    "not_modelled": [],
+    "assumptions": [],
+}
+
 NOT_APPLICABLE = {}
